@@ -18,8 +18,8 @@
 (*                    => ErrTxnTooBig                                      *)
 (* Property AcceptedFits: once every write of a transaction was accepted,  *)
 (* Commit does not fail with ErrTxnTooBig.  Reserve is a constant: 41      *)
-(* (= 11 + 8 + 2 + 20) makes the property hold; the pinned tree reserves   *)
-(* 21, for which TLC finds the counterexample (one entry, commit timestamp *)
+(* (= 11 + 8 + 2 + 20) makes the property hold (the code since fix 42a4398);*)
+(* before it 21 were reserved, for which TLC finds the counterexample (one entry, commit timestamp *)
 (* with 3 or more digits).                                                 *)
 (*                                                                         *)
 (* Part 2 (validation).  Accepts/Validate give the error class Txn.modify  *)
